@@ -220,7 +220,55 @@ def run(repo, rep):
             return m.group(2) if m.group(3) == 'code' else '%s.%s' % (m.group(1), m.group(3))
         return t
     code_ok = True
+    # ---- W5: the classification is total: no 16-bit code is refused
+    rep.rule('C18.W5', 'Status(code, command) classifies every 16-bit code: no raise in the constructor (helpers included) is reachable '
+             'for code 0000H or FFFFH -- conditions on the code folded at both ends of the range', 1)
+    from ..arith import CannotEvaluate, eval_value
+    from ..provider_model import parse_cond
+    p5 = []
+    n_raise = 0
     for s, how in fin:
+        if not how.startswith('raise'):
+            continue
+        n_raise += 1
+        parsed = [(pol, e_) for pol, e_ in (parse_cond(x) for x in s.conds) if e_ is not None]
+        rel = [(pol, e_) for pol, e_ in parsed if any(isinstance(y, ast.Name) and y.id == vparam for y in ast.walk(e_))]
+        if not rel or not any(isinstance(y, ast.Name) and y.id == vparam for y in ast.walk(parsed[-1][1])):
+            continue
+        for v in (0xFFFF, 0):
+            holds = True
+            for pol, e_ in rel:
+                import copy as _copy
+
+                class S5(ast.NodeTransformer):
+                    def visit_Name(self_, n):
+                        if n.id == vparam:
+                            return ast.Constant(value=v)
+                        vals_ = st.assigns.get(n.id)
+                        if vals_ and len(vals_) == 1 and isinstance(n.ctx, ast.Load):
+                            cv = repo.try_fold(vals_[0], st)
+                            if type(cv) in (int, str, tuple, frozenset):
+                                return ast.Constant(value=cv) if type(cv) in (int, str) else n
+                            if isinstance(vals_[0], ast.Call) and norm(vals_[0].func) in ('range', 'six.moves.range', 'xrange'):
+                                return ast.Call(func=ast.Name(id='range', ctx=ast.Load()), args=_copy.deepcopy(vals_[0].args), keywords=[])
+                        return n
+                try:
+                    val = eval_value(S5().visit(_copy.deepcopy(e_)), {})
+                except (CannotEvaluate, Exception):
+                    holds = None
+                    break
+                if bool(val) != pol:
+                    holds = False
+                    break
+            if holds:
+                p5.append('Status(0x%04X, ..) raises %s (conditions %s): a legal status code is refused instead of classified'
+                          % (v, how.split(':', 1)[1], ' and '.join(x for x in s.conds if vparam in x)[:160]))
+                break
+    rep.check(not p5, 'C18.W5', 'statuses:Status.__init__:total', init.loc(), '%d raise path(s), none for a 16-bit code' % n_raise,
+              '; '.join(sorted(set(p5))))
+    for s, how in fin:
+        if how.startswith('raise'):
+            continue
         s = type(s)(s.env, s.heap, tuple(cn[0] + inline_pure_calls(cn[1:], repo, 'statuses') if cn[:1] in '+-' else cn for cn in s.conds), s.trail, s.ret)
         tterm = attr_term(s, 'status_type')
         if tterm is not None:
